@@ -127,6 +127,28 @@ def double_precision(ctx: Ctx, F) -> None:
                               {"N": N, "H": H, "T": T, "cost": cost, "deduct_first_cost": first, "max_abs_error": float((got.double() - want).abs().max()), "dtype": str(got.dtype)})
 
 
+def large_batch(ctx: Ctx, F) -> None:
+    """One call on a LARGE batch (more than 2^24 price points, as a Monte-Carlo run has) equals the same paths evaluated in
+    chunks - the account of a path does not depend on how many other paths are in the call.  Integer-valued prices and positions
+    and dyadic rates, so that every sum is exact whatever its order; the position changes at the last step too."""
+    g = torch.Generator().manual_seed(5)
+    N, H, T = 2 ** 21 + 3, 2, 5
+    spot = torch.randint(1, 5, (N, H, T), generator=g).to(torch.float32)
+    unit = torch.randint(-2, 3, (N, H, T), generator=g).to(torch.float32)
+    payoff = torch.randint(-3, 4, (N,), generator=g).to(torch.float32)
+    for cost in ([0.125, 0.25], None):
+        for first in (True, False):
+            with torch.no_grad():
+                whole = F.pl(spot, unit, cost=cost, payoff=payoff, deduct_first_cost=first)
+                parts = torch.cat([F.pl(spot[a:a + 2 ** 18], unit[a:a + 2 ** 18], cost=cost, payoff=payoff[a:a + 2 ** 18], deduct_first_cost=first) for a in range(0, N, 2 ** 18)])
+            ctx.count(("large-batch", str(cost), first), n=1)
+            if whole.shape != parts.shape or not torch.equal(whole, parts):
+                i = int((whole != parts).nonzero()[0]) if whole.shape == parts.shape else 0
+                ctx.violation("pl:large-batch", f"pl() on {N * H * T} price points in one call differs from the same paths evaluated in chunks of 2^18",
+                              {"cost": cost, "deduct_first_cost": first, "path": i, "spot": spot[i].tolist(), "unit": unit[i].tolist(), "payoff": payoff[i].item(),
+                               "in_one_call": whole[i].item() if whole.shape == parts.shape else None, "in_chunks": parts[i].item()})
+
+
 def check(ctx: Ctx) -> None:
     import pfhedge.nn.functional as F
     from checks import hedge_common
@@ -157,6 +179,7 @@ def check(ctx: Ctx) -> None:
     ctx.selftest("corrupted expected wealth is rejected", len(probe.violations) > 0)
 
     double_precision(ctx, F)
+    large_batch(ctx, F)
     hedge_common.replay_hedger(ctx, focus="C01")
 
     from checks import suite_oracles
